@@ -387,7 +387,9 @@ func runC15Config(rep *base.Report, cli, scratch string, ci int, cfg c15Config, 
 				hit = "after:" + steps[len(steps)-1].String()
 			}
 			rep.Eval(fmt.Sprintf("%s|KILL|%s", cfgName, hit))
-			markMu.Lock(); killCovered[hit] = true; markMu.Unlock()
+			markMu.Lock()
+			killCovered[hit] = true
+			markMu.Unlock()
 			probs, newCount := checkDestStates(dest, tree, prev)
 			if len(probs) > 0 {
 				rep.Violate(base.Violation{Sig: "C15/crash/" + classify15(probs[0]) + "/at-" + pl.name,
@@ -455,7 +457,9 @@ func runC15Config(rep *base.Report, cli, scratch string, ci int, cfg c15Config, 
 		}
 		hit := steps[hitIdx].String()
 		rep.Eval(fmt.Sprintf("%s|%s|%s", cfgName, pl.kind, hit))
-		markMu.Lock(); errCovered[hit] = true; markMu.Unlock()
+		markMu.Lock()
+		errCovered[hit] = true
+		markMu.Unlock()
 		var probs []string
 		if out.Exit == 0 {
 			probs = append(probs, "exit status 0 although "+hit+" failed")
